@@ -146,7 +146,7 @@ def number_token(d, nonneg=False):
     return sign + body
 
 
-SEPS = [" ", ",", " ", ", ", " , ", "\n", "\t", "  ", " ,", "\r\n", " ", ","]
+SEPS = [" ", ",", " ", ", ", " , ", "\n", "\t", "  ", " ,", "\r\n", " ", ",", "\x0c", " \x0c", "\r", ",\t"]  # every wsp of the grammar: #x9 #x20 #xA #xC #xD
 
 
 def can_abut(prev_tok, next_tok):
@@ -240,7 +240,7 @@ def path_text(d, min_cmds=1, max_cmds=10, letters=LETTERS, allow_zfill=True):
         cmds.append(path_command(d, letters=letters, allow_zfill=allow_zfill))
     for i, (ch, body) in enumerate(cmds):
         if i > 0:
-            text += d.choice(["", " ", " ", "\n"])
+            text += d.choice(["", " ", " ", "\n", "", " ", "\x0c", "\t", "\r"])
         offsets.append(len(text))
         text += ch
         if body:
